@@ -153,15 +153,24 @@ OnHEnterS(mm, e) ==
       c5 == IF e.hc = "CO" /\ s \in mm.completed THEN {<<"C12", "second-completion", s>>} ELSE {}
       c6 == IF s \in mm.completed THEN {<<"C12", "stage-change-after-completion", s>>} ELSE {}
       c7 == IF s \in mm.closedRet THEN {<<"C12", "notification-after-close-returned", s>>} ELSE {}
-      c8 == IF e.out # "nil" /\ e.conforms = "n" THEN {<<"C08", "step-output-does-not-match-declared-schema", s \o "." \o e.prev \o "." \o e.out>>} ELSE {}
+      \* what a loop step reports is judged as the step reports it
       c9 == IF known /\ KindOf(WF, s) = "foreach" /\ e.out # "nil" /\ e.prev \in {"outputs", "failed"}
               THEN ForeachRules(mm, s, e) ELSE {}
+  IN  VS([base EXCEPT !.fin = @ \cup {<<s, e.prev>>},
+                      !.completed = IF e.hc = "CO" THEN @ \cup {s} ELSE @],
+         c1 \cup c2 \cup c3 \cup c4 \cup c5 \cup c6 \cup c7 \cup c9)
+
+\* the run loop makes the output of a finished stage available to expressions (in the handler of the notification,
+\* after it resolved the stage's nodes): THIS value - not the one the step handed over, which the run loop may still
+\* serialize - is what must match the declared schema and what consumers will read
+OnStored(mm, e) ==
+  LET s == e.step
+      c0 == IF ~(mm.h.active /\ mm.h.step = s /\ mm.h.prev = e.prev /\ mm.h.out = e.out)
+              THEN {<<"C12", "output-stored-outside-the-handler-of-its-notification", s \o "." \o e.prev \o "." \o e.out>>} ELSE {}
+      c8 == IF e.out # "nil" /\ e.conforms = "n" THEN {<<"C08", "step-output-does-not-match-declared-schema", s \o "." \o e.prev \o "." \o e.out>>} ELSE {}
       node == StageOutNode(s, e.prev, e.out)
       d1 == IF e.out # "nil" THEN mm.data \cup {<<node, x.p, x.v>> : x \in Range(e.data)} ELSE mm.data
-  IN  VS([base EXCEPT !.fin = @ \cup {<<s, e.prev>>},
-                      !.completed = IF e.hc = "CO" THEN @ \cup {s} ELSE @,
-                      !.data = d1],
-         c1 \cup c2 \cup c3 \cup c4 \cup c5 \cup c6 \cup c7 \cup c8 \cup c9)
+  IN  VS([mm EXCEPT !.data = d1], c0 \cup c8)
 
 OnHEnterF(mm, e) ==
   LET s == e.step
@@ -311,6 +320,7 @@ OnReturn(mm, e) ==
 Dispatch(mm, e) ==
   CASE e.ev = "HEnter" /\ e.h = "K" -> OnKick(mm, e)
     [] e.ev = "HEnter" /\ e.h = "S" -> OnHEnterS(mm, e)
+    [] e.ev = "Stored" -> OnStored(mm, e)
     [] e.ev = "HEnter" /\ e.h = "F" -> OnHEnterF(mm, e)
     \* when the handler that delivered a true stop condition has returned, the step has been told to stop: if it has
     \* not yet passed its start-time check it must never start
